@@ -65,11 +65,15 @@ def confirm(d):
     tfile = os.path.join(tdir, "seed_demo.rs")
     # without the patch: the demonstration passes
     open(tfile, "w").write(open(demo).read())
-    rc, out = sh(["cargo", "test", "-p", crate, "--test", "seed_demo", "--offline"], cwd=SCRATCH)
+    demo_cmd = ["cargo", "test", "-p", crate, "--test", "seed_demo", "--offline"]
+    if m.get("demo_runner") == "miri":
+        # sanitizer-layer seeds: behaviour is unchanged natively, the demonstration runs under Miri
+        demo_cmd = ["cargo", "+nightly", "miri", "test", "-p", crate, "--test", "seed_demo", "--offline"]
+    rc, out = sh(demo_cmd, cwd=SCRATCH)
     res["demo_passes_without_patch"] = rc == 0
     # with the patch: the suite still passes, the demonstration fails
     sh(["git", "-C", SCRATCH, "apply", patch])
-    rc, out = sh(["cargo", "test", "-p", crate, "--test", "seed_demo", "--offline"], cwd=SCRATCH)
+    rc, out = sh(demo_cmd, cwd=SCRATCH)
     res["demo_fails_with_patch"] = rc != 0
     os.remove(tfile)
     rc, out = sh(["cargo", "test", "--workspace", "--offline"], cwd=SCRATCH)
@@ -119,7 +123,7 @@ def detect(d, extra_props=None, tier="quick"):
 
 
 def _worker_dir(w):
-    return "/tmp/stunmon-seed-w%d" % w
+    return "%s%d" % (os.environ.get("STUNMON_WORKER_PREFIX", "/tmp/stunmon-seed-w"), w)
 
 
 def pdetect_one(w, d, props, tier):
